@@ -378,6 +378,17 @@ impl Family for C09Family {
                 }
             }
 
+            // whatever its outcome, an assertion leaves the secrets stored with a credential where they are (every
+            // later result is keyed with them)
+            if is_authentication(kind) && spec.faults.is_empty() && spec.cancel_after.is_none() {
+                for b in o.before.iter().filter(|b| b.hmac.is_some()) {
+                    if let Some(a) = o.after.iter().find(|a| a.id == b.id) {
+                        if a.hmac != b.hmac {
+                            j.fail("stored-secrets-changed", format!("op a{}#{}: the assertion changed the PRF secrets stored with credential {}: before {:?}, after {:?}", o.actor, o.idx, crate::model::hex(&b.id), b.hmac, a.hmac));
+                        }
+                    }
+                }
+            }
             if !o.result.is_ok() {
                 // unverified ceremony on a credential without the non-gated secret must not yield output: it errs
                 continue;
